@@ -352,6 +352,15 @@ class C08(Property):
                 "cands": cands, "ops": ops, "ops2": ops2}
         if rng.random() < 0.5:
             case["ops"] = case["ops2"] = self.with_clears(rng, case)
+        elif cands and genes and rng.random() < 0.3:
+            # a gene gets its core annotation after its protocluster listed it, then candidate / regions hand it over again
+            cand = rng.choice(cands)
+            proto = [p for p in protos if p["id"] in cand["kids"]][0]
+            seq = [["cds", g["id"]] for g in genes] + [["area", k] for k in cand["kids"]]
+            for g in rng.sample(genes, min(len(genes), 2)):
+                seq.append(["annotate", g["id"], ["add", 1, "rules", "late", proto["product"]]])
+            seq += [["area", cand["id"]]] + [["area", s["id"]] for s in subs] + ([["regions"]] if rng.random() < 0.7 else [])
+            case["ops"] = case["ops2"] = seq
         return case
 
     @staticmethod
@@ -459,8 +468,7 @@ class C08(Property):
                     for ids in registered.values():
                         ids.clear()
                     regions_alive = False
-                retired.update(ever_added)
-                retired.update(c["id"] for c in case["cands"] if any(k in ever_added for k in c["kids"]))
+                # (collections that met the old annotations may come back: each meeting re-evaluates, see defs_replay)
             for _ in range(rng.choice([0, 0, 1, 1, 2])):
                 observe()
             if rng.random() < 0.22:
@@ -839,10 +847,9 @@ class C08(Property):
         details = []
         corr = True
         for name, o, m in (("first", first, drv["model"]), ("second", second, drv["model2"])):
-            if m.get("err") == "annotation-after-pairing":
-                ok = True          # a gene re-annotated after a collection listed it: beyond the model, spec still applies
-                tags.append("beyond-model")
-            elif "err" in o:
+            if not drv.get("strict", True) and "beyond-model" not in tags:
+                tags.append("beyond-model")       # a gene re-annotated after a collection listed it: followed by runLoose
+            if "err" in o:
                 ok = m.get("err") == o["err"].split(":")[0]
                 tags.append("err:" + o["err"])
             else:
@@ -862,9 +869,15 @@ class C08(Property):
                 spec_ok = False
                 details.append(f"spec fails on region: expected {want_region} got {got['region']}")
             beyond = "beyond-model" in tags
+            have_defs = dict((i, v) for i, v in got["defs"])
+            for i, v in drv.get("defs_replay", []):
+                if have_defs.get(i) != v:      # decided each time gene and protocluster meet, with the annotations of that moment
+                    spec_ok = False
+                    details.append(f"definition genes of {i}: expected {v} (every meeting of gene and protocluster "
+                                   f"re-evaluates the gene's current annotations) got {have_defs.get(i)}")
             for k in ("children", "defs", "sections"):
                 if k == "defs" and beyond:
-                    continue      # a gene re-annotated after a collection listed it: definition sets are fixed at the meeting
+                    continue      # the static reading applies only while annotations precede the meetings
                 have = dict((i, v) for i, v in got[k])
                 for i, v in spec[k]:
                     if v is not None and have.get(i) != v:      # null: the spec does not determine it (not alive)
